@@ -16,7 +16,7 @@ RULE = ("metamorphic pairs of generated problems differing only in the nominals 
 MODELLED = "use of variable_nominal throughout transcribe() and _collint_get_lbx_ubx / initial-derivative nominals"
 NOT_MODELLED = "goal function nominals (C03/C17 harness), solver behaviour under rescaling, simulation (C09)"
 ASSUMPTIONS = []
-FEAT = {"bounds": True, "history": True, "objective": True, "path": True, "own_grid": False}
+FEAT = {"bounds": True, "history": True, "objective": True, "path": True, "own_grid": False, "pvars": True}
 
 
 def run(ctx):
@@ -66,9 +66,10 @@ def nominal_vector(s, o):
         for v in tr.layout_names(s):
             f = ca.Function("i", [p.solver_input], [p.state_vector(v, m)])
             idx = [int(round(float(x))) for x in np.array(f(ca.DM(list(range(nx))))).ravel()]
-            nom = p.variable_nominal(v)
-            for i in idx:
-                nv[i] = float(nom)
+            nom = np.atleast_1d(p.variable_nominal(v)).astype(float)
+            per = max(1, len(idx) // len(nom))          # a vector variable: component-major blocks
+            for j, i in enumerate(idx):
+                nv[i] = float(nom[min(j // per, len(nom) - 1)])
     return [float(x) for x in nv]
 
 
